@@ -115,4 +115,59 @@ theorem dec_no_leading_zero' (n : Nat) : (dec n).head? = some '0' → dec n = ['
   · exact absurd h hl
   · rw [hl]; rfl
 
+/-! number of digits -/
+
+theorem digitsRev_length_le : ∀ (fuel n k : Nat), n < fuel → 0 < k → n < 10 ^ k → (digitsRev fuel n).length ≤ k := by
+  intro fuel
+  induction fuel with
+  | zero => intro n k h; omega
+  | succ fuel ih =>
+    intro n k hf hpos hk
+    unfold digitsRev
+    by_cases h10 : n < 10
+    · simp [h10]
+      omega
+    · simp only [h10, if_false, List.length_cons]
+      cases k with
+      | zero => omega
+      | succ k =>
+        rw [Nat.pow_succ] at hk
+        have hk' : 0 < k := by
+          cases k with
+          | zero => simp at hk; omega
+          | succ k => omega
+        have := ih (n / 10) k (by omega) hk' (by omega)
+        omega
+
+theorem digitsRev_length_gt : ∀ (fuel n k : Nat), n < fuel → 10 ^ k ≤ n → k < (digitsRev fuel n).length := by
+  intro fuel
+  induction fuel with
+  | zero => intro n k h; omega
+  | succ fuel ih =>
+    intro n k hf hk
+    unfold digitsRev
+    by_cases h10 : n < 10
+    · simp [h10]
+      cases k with
+      | zero => rfl
+      | succ k =>
+        rw [Nat.pow_succ] at hk
+        have : 0 < 10 ^ k := Nat.pow_pos (by omega)
+        omega
+    · simp only [h10, if_false, List.length_cons]
+      cases k with
+      | zero => omega
+      | succ k =>
+        rw [Nat.pow_succ] at hk
+        have := ih (n / 10) k (by omega) (by omega)
+        omega
+
+theorem dec_length_le' (n k : Nat) (hk : 0 < k) (h : n < 10 ^ k) : (dec n).length ≤ k := by
+  simp only [dec, digits, List.length_map, List.length_reverse]
+  exact digitsRev_length_le (n + 1) n k (by omega) hk h
+
+theorem dec_length_gt' (n k : Nat) (h : 10 ^ k ≤ n) : k < (dec n).length := by
+  simp only [dec, digits, List.length_map, List.length_reverse]
+  exact digitsRev_length_gt (n + 1) n k (by omega) h
+
 end GooseVerif.Model.Decimal
